@@ -39,17 +39,31 @@ def number(rng, edge=0.25):
     return pick(rng, NUM_EDGE) if rng.random() < edge else pick(rng, SMALL)
 
 
-def grammar(rng, edge=0.2):
-    """a string of the PEP 440 grammar (accepted by packaging), mostly; alternative spellings included"""
+def base_release(rng, edge=0.2):
+    """(epoch prefix, release) shared by a cluster of versions"""
+    ep = pick(rng, [b"1!", b"2!", b"01!", b"255!"]) if rng.random() < 0.15 else b""
+    n = rng.choice([1, 2, 2, 3, 3])
+    return ep, b".".join(number(rng, edge) for _ in range(n))
+
+
+def grammar(rng, edge=0.2, base=None):
+    """a string of the PEP 440 grammar (accepted by packaging), mostly; alternative spellings included.
+    With base=(epoch prefix, release) the version belongs to that release (possibly with extra zeros)."""
     s = b""
     if rng.random() < 0.05:
         s += pick(rng, SPACES[:6])
     if rng.random() < 0.08:
         s += rng.choice([b"v", b"V"])
-    if rng.random() < 0.15:
-        s += pick(rng, [b"0", b"1", b"2", b"00", b"01", b"255", b"256", b"1000"]) + b"!"
-    n = rng.choice([1, 2, 2, 3, 3, 3, 4, 5])
-    s += b".".join(number(rng, edge) for _ in range(n))
+    if base is not None:
+        ep, rel = base
+        if s[-1:] in (b"v", b"V") and ep:
+            s = s[:-1]
+        s += ep + rel + rng.choice([b"", b"", b"", b".0", b".0.0", b".00"])
+    else:
+        if rng.random() < 0.15:
+            s += pick(rng, [b"0", b"1", b"2", b"00", b"01", b"255", b"256", b"1000"]) + b"!"
+        n = rng.choice([1, 2, 2, 3, 3, 3, 4, 5])
+        s += b".".join(number(rng, edge) for _ in range(n))
     sep = lambda: pick(rng, SEPS)
     if rng.random() < 0.35:
         s += sep() + anycase(rng, pick(rng, PRE))
